@@ -1,0 +1,57 @@
+//go:build verif
+
+package environment
+
+import (
+	"github.com/AliceO2Group/Control/common/utils/uid"
+	"github.com/AliceO2Group/Control/core/task"
+	"github.com/AliceO2Group/Control/core/workflow"
+)
+
+// NewEnvironmentForVerif builds an Environment with newEnvironment and attaches a workflow to it
+// the way CreateEnvironment does (the workflow's parent is the environment's ParentAdapter),
+// with an injected hook-task handler instead of the task manager's TriggerHooks.
+func NewEnvironmentForVerif(userVars map[string]string, newId uid.ID,
+	buildWorkflow func(parent workflow.Updatable) (workflow.Role, error),
+	hookHandler func(hooks task.Tasks) error) (env *Environment, err error) {
+	env, err = newEnvironment(userVars, newId)
+	if err != nil {
+		return nil, err
+	}
+	env.hookHandlerF = hookHandler
+	env.UserVars.Set("environment_id", env.id.String())
+	env.workflow, err = buildWorkflow(env.wfAdapter)
+	if err != nil {
+		return nil, err
+	}
+	return env, nil
+}
+
+type verifTransition struct {
+	name string
+	body func(env *Environment) error
+}
+
+func (t verifTransition) eventName() string         { return t.name }
+func (t verifTransition) check() error              { return nil }
+func (t verifTransition) do(env *Environment) error { return t.body(env) }
+
+// NewTransitionForVerif is a Transition (the interface has unexported methods) whose task
+// transition body is injected.
+func NewTransitionForVerif(event string, body func(env *Environment) error) Transition {
+	return verifTransition{name: event, body: body}
+}
+
+// PendingAwaitCallsForVerif is the number of started calls not yet collected.
+func (env *Environment) PendingAwaitCallsForVerif() (n int) {
+	for _, m := range env.callsPendingAwait {
+		for _, calls := range m {
+			n += len(calls)
+		}
+	}
+	return
+}
+
+// ForceStateForVerif is setState (used by the watcher, the auto-stop timer and the API fallback
+// to force ERROR or DONE without an FSM event).
+func (env *Environment) ForceStateForVerif(state string) { env.setState(state) }
